@@ -21,6 +21,7 @@ def instances(tier):
     out.append(dict(name='cut-continuity', fn='lj_continuity', args={}))
     out.append(dict(name='wca-sign', fn='wca_sign', args={}, query_timeout_ms=120000))
     out.append(dict(name='sigma-default', fn='sigma_default', args={}))
+    out.append(dict(name='contact-fp[N8]', fn='contact_fp', args=dict(N=8), query_timeout_ms=300000, timeout=2500))
     return out
 
 
@@ -180,3 +181,73 @@ def sigma_default(E):
     # the user's potential objects were not given a sigma behind the user's back
     E.claim_true('system-potential-untouched', S.potential['A', 'A'].sigma is None and S.potential['A', 'B'].sigma is None)
     E.claim('canary', E.eq(PR.sys.potential['A', 'B'].sigma, dA), canary=True)
+
+
+# ----------------------------------------------------------------------------- contact classification (symx-FP)
+
+CONTACT_SITES = ['HardSphere', 'Exponential', 'HardCoreLennardJones', 'PercusYevick', 'HyperNettedChain', 'MeanSphericalApproximation', 'MartynovSarkisov']
+
+
+def contact_fp(E, N):
+    """machine arithmetic: is there a spacing dr, an index i and a contact distance sigma such that the grid point r_i
+    coincides with sigma to the tolerance System.check uses (|r_i - sigma| < 1e-6) and yet the core masks (r > sigma) put
+    it OUTSIDE the core? The grid is obtained by executing the real Domain.build_grid on a symbolic Float64."""
+    import z3, time, struct, fractions
+    from vsym import fp
+    P = pyPRISM.potential; C = pyPRISM.closure
+    if not E.sym:
+        dr = E.real('dr', default=0.1); sg = E.real('sigma', default=0.7); i = int(E.real('i', default=6))
+        r = pyPRISM.Domain(length=N, dr=dr).r
+        on_grid = abs(r[i] - sg) < 1e-6
+        if not on_grid:
+            return
+        high = 1e6
+        res = {'HardSphere': P.HardSphere(sigma=sg, high_value=high).calculate(r)[i] == high,
+               'Exponential': P.Exponential(epsilon=1.0, alpha=0.5, sigma=sg, high_value=high).calculate(r)[i] == high,
+               'HardCoreLennardJones': P.HardCoreLennardJones(epsilon=1.0, sigma=sg, high_value=high).calculate(r)[i] == high}
+        g = _np.full(N, 0.25); u = _np.full(N, 0.1)
+        for cn in CONTACT_SITES[3:]:
+            cl = getattr(C, cn)(apply_hard_core=True); cl.sigma = sg; cl.potential = u
+            res[cn] = cl.calculate(r, g)[i] == -1.25
+        for k, ok in res.items():
+            E.claim_true('contact-inside-core[%s]' % k, bool(ok))
+        return
+    import pyPRISM.core.Domain as DM
+    v = z3.FP('dr', fp.F64); s = z3.FP('sigma', fp.F64)
+    npf = fp.NPF(N); saved = DM.np; DM.np = npf
+    try:
+        D = pyPRISM.Domain(length=N, dr=fp.SF(v))
+    finally:
+        DM.np = saved
+    pre = [z3.fpGEQ(v, fp.fv(1e-3)), z3.fpLEQ(v, fp.fv(1.0)), z3.fpGT(s, fp.fv(0.0)), z3.fpLEQ(s, fp.fv(10.0))]
+    found = None
+    t0 = time.time()
+    for i in range(N):
+        ri = D.r[i].t
+        sv = z3.Solver(); sv.set('timeout', int(E.timeout_ms))
+        sv.add(*pre)
+        sv.add(z3.fpLT(z3.fpAbs(z3.fpSub(fp.RNE, ri, s)), fp.fv(1e-6)))     # System.check: sigma is 'on the grid'
+        sv.add(z3.fpGT(ri, s))                                             # the masks r > sigma: outside the core
+        r = str(sv.check()); E.stats['queries'] += 1
+        if r == 'sat':
+            m = sv.model()
+            dv = struct.unpack('>d', m.eval(z3.fpToIEEEBV(v), model_completion=True).as_long().to_bytes(8, 'big'))[0]
+            sgv = struct.unpack('>d', m.eval(z3.fpToIEEEBV(s), model_completion=True).as_long().to_bytes(8, 'big'))[0]
+            found = (i, dv, sgv); break
+        if r != 'unsat':
+            E.results.append(dict(key='contact-classified-inside-core', verdict='unknown', s=0, path='', canary=False)); return
+    E.stats['solver_s'] += time.time() - t0
+    if found is None:
+        E.claim_true('contact-classified-inside-core', True)
+        return
+    i, dv, sgv = found
+    # realistic witness first (round numbers), else the solver's model
+    for cand in ((6, 0.1, 0.7), (i, dv, sgv)):
+        if cand[0] >= N:
+            continue
+        p = E._replay('contact-inside-core', {'dr': str(fractions.Fraction(cand[1])), 'sigma': str(fractions.Fraction(cand[2])), 'i': str(cand[0])})
+        if p:
+            for f in E.violations[-1]['failed']:
+                E.results.append(dict(key=f, verdict='violation', s=0, path='', canary=False, replay=p))
+            return
+    E.results.append(dict(key='contact-classified-inside-core', verdict='sat-not-reproduced', s=0, path='', canary=False))
